@@ -19,7 +19,7 @@ SADDR = ("10.0.0.2", 4433)
 TESTS = os.path.join(os.environ.get("VERIF_REPO", "/repo"), "tests")
 
 INTERNAL_READS = ["_loss.congestion_window", "_loss.bytes_in_flight", "_close_at", "_state",
-                  "_cryptos[epoch].recv.is_valid()", "_loss.get_probe_timeout()", "_probe_pending",
+                  "_cryptos[epoch].recv.is_valid()", "_loss._rtt_smoothed/_rtt_variance/_rtt_initial/max_ack_delay (base PTO)", "_probe_pending",
                   "_handshake_complete", "_handshake_confirmed", "_network_paths[0].is_validated"]
 
 DEFAULT_CFG = {"version": "v1", "cc": "reno", "suite": "", "alpn": ["hq"], "max_data": 1048576,
@@ -242,8 +242,16 @@ class Sim:
         return {"cwnd": int(L.congestion_window), "bif": int(L.bytes_in_flight),
                 "probe": bool(conn._probe_pending), "state": conn._state.name,
                 "hc": bool(conn._handshake_complete), "hcf": bool(conn._handshake_confirmed),
-                "pto": int(round(L.get_probe_timeout() * US)),
+                "pto": int(round(self._base_pto(L) * US)),
                 "validated": bool(conn._network_paths[0].is_validated) if conn._network_paths else False}
+
+    @staticmethod
+    def _base_pto(L):
+        """RFC 9002 6.2.1 probe timeout without back-off, computed from the RTT estimator's
+        fields (not through get_probe_timeout(), which is code under check)."""
+        if not L._rtt_initialized:
+            return 2 * L._rtt_initial
+        return L._rtt_smoothed + max(4 * L._rtt_variance, 0.001) + L.max_ack_delay
 
     def _feed_keys(self):
         P = self.A["packet"].QuicProtocolVersion
@@ -482,6 +490,43 @@ class Sim:
                 stalled[best[1]] = best[0]
                 self.ev("note", what="timer-without-effect", ep=best[1], due=best[0])
         return False
+
+    def run_closing(self, max_steps=200):
+        """Fire the timers of endpoints that are closing or draining until they report termination."""
+        for _ in range(max_steps):
+            todo = [ep for ep, c in self.eps.items()
+                    if not self.terminated[ep] and c._state.name in ("CLOSING", "DRAINING")]
+            if not todo:
+                return True
+            if not self.fire(todo[0]):
+                return False
+        return False
+
+    def blackout(self, max_steps=400):
+        """Total blackout: everything in flight is lost, timers fire on time, until both endpoints
+        have reported termination (idle timeout)."""
+        for _ in range(max_steps):
+            while self.net:
+                self.drop(0)
+            best = None
+            for ep in self.eps:
+                v = self.timer_value(ep)
+                if v is not None and not self.terminated[ep] and (best is None or v < best[0]):
+                    best = (v, ep)
+            if best is None:
+                return True
+            self.fire(best[1])
+        return False
+
+    def final_poll(self):
+        """After the run: anything still queued for the application is an event too."""
+        E = self.A["events"]
+        for ep, conn in self.eps.items():
+            for _ in range(50):
+                e, r = self._guard(ep, "next_event", conn.next_event)
+                if e is None:
+                    break
+                self._log_event(ep, e, E)
 
     def handshake(self):
         self.connect()
